@@ -60,6 +60,17 @@ def str_parse(ctx, args, st):
     if s.facts is not None and ('parse_' + ty) in s.facts:
         return ret(st, s.facts['parse_' + ty])
     c = s.concrete()
+    if c is None and ty in ('i64', 'usize', 'i32') and s.chars:
+        return parse_int_symbolic(ctx, st, s, ty)
+    if c is None and ty == 'f64' and s.chars:
+        # a (signed) run of ASCII digits is always a valid f64 literal; its value is the nearest double (left unconstrained here, finite or inf, not NaN)
+        chars = list(s.chars)
+        if isinstance(chars[0], int) and chr(chars[0]) in '+-': chars = chars[1:]
+        digit = z3.And(*[z3.And(z3.UGE(ch, 48), z3.ULE(ch, 57)) if not isinstance(ch, int) else z3.BoolVal(48 <= ch <= 57) for ch in chars]) if chars else z3.BoolVal(False)
+        if not ctx.ex.feasible(st, z3.Not(digit)):
+            f = z3.FP(f'parsed_f64_{len(st.conds)}', F64)
+            st.assume(z3.Not(z3.fpIsNaN(f)))
+            return ret(st, Ok(Float(f)))
     if c is None:
         raise Unsupported(f'parse::<{ty}> on a symbolic string without parse facts')
     if ty in ('i64', 'usize', 'i32'):
@@ -105,3 +116,39 @@ def int_try_into(ctx, args, st):
 
 
 FMOD = z3.Function('fmod', F64, F64, F64)
+
+
+def parse_int_symbolic(ctx, st, s, ty):
+    """str::parse::<int> on a string whose sign is concrete (or absent) and whose remaining chars are symbolic but
+    constrained (by the path condition) to be ASCII digits: exact value and range check (core::num::from_str_radix semantics)"""
+    chars = list(s.chars)
+    neg = False
+    if isinstance(chars[0], int) and chr(chars[0]) in '+-':
+        neg = chars[0] == ord('-'); chars = chars[1:]
+    bits, sg = INT_TYPES[ty]
+    if not chars or (neg and not sg):
+        return ret(st, Err(Opaque(('ParseIntError',))))
+    ex = ctx.ex
+    digit = z3.And(*[z3.And(z3.UGE(c, 48), z3.ULE(c, 57)) if not isinstance(c, int) else z3.BoolVal(48 <= c <= 57) for c in chars])
+    if ex.feasible(st, z3.Not(digit)):
+        def g0():
+            for s2, ok in ex.fork_bool(st, digit):
+                if not ok: yield s2, 'ret', Err(Opaque(('ParseIntError', 'InvalidDigit')))
+                else: yield from parse_int_symbolic(ctx, s2, StrV(s.chars, s.ty), ty)
+        return g0()
+    W = 128
+    if len(chars) > 36: raise Unsupported('integer literal longer than 36 digits')
+    v = z3.BitVecVal(0, W)
+    for c in chars:
+        d = (z3.ZeroExt(W - 32, c) if not isinstance(c, int) else z3.BitVecVal(c, W)) - 48
+        v = v * 10 + d
+    if neg: v = -v
+    lo, hi = (-(1 << (bits - 1)), (1 << (bits - 1)) - 1) if sg else (0, (1 << bits) - 1)
+    fits = z3.And(v >= z3.BitVecVal(lo, W), v <= z3.BitVecVal(hi, W))      # signed comparison in 128 bits
+    def g():
+        for s2, ok in ex.fork_bool(st, fits):
+            if ok:
+                yield s2, 'ret', Ok(Int(z3.simplify(z3.Extract(bits - 1, 0, v)), ty))
+            else:
+                yield s2, 'ret', Err(Opaque(('ParseIntError', 'Overflow')))
+    return g()
